@@ -154,6 +154,8 @@ def generic_signature(case):
            'parent': site.get('parent'), 'pfield': site.get('pfield'), 'code': site.get('code')}
     for p in v.get('predicates') or ():
         sig['P:' + p] = True
+    for p in site.get('flags') or ():
+        sig['F:' + p] = True
     return sig
 
 
